@@ -404,7 +404,7 @@ func runCorrupt(o *opts) {
 			rmrf(filepath.Join(p.Root, c.artPath))
 		}
 		s.count("workspace:" + ws)
-		t, _ := p.do(Cmd{Kind: "checkout", Copy: true}, nil, want(5, 8, 13), nil, nil)
+		t, _ := p.do(Cmd{Kind: "checkout", Copy: true}, nil, want(5, 8, 13, 4), nil, nil)
 		t.Info["step"] = "checkout --copy with a corrupted file object"
 		t.Info["workspace"] = ws
 		t.Info["damage"] = how
@@ -421,9 +421,67 @@ func runCorrupt(o *opts) {
 		all = append(all, ts...)
 		c.cleanup()
 	}
+	// pipelines: the corrupted object belongs to an UPSTREAM stage and only the downstream one is named
+	npipe := 4
+	if o.tier == "thorough" {
+		npipe = 40
+	}
+	for i := 0; i < npipe; i++ {
+		rr := r.fork()
+		base := scenarioDir(o, "corruptp", i)
+		p := newProject(o, base, []string{"in", "abs"}[rr.intn(2)])
+		p.init()
+		var pool [][]byte
+		nested := rr.chance(1, 2)
+		upOut, upFile := "a.bin", "a.bin"
+		if nested {
+			upOut, upFile = "adir", "adir/deep/a.bin"
+			must(os.MkdirAll(filepath.Join(p.Root, "adir", "deep"), 0o755))
+			must(os.WriteFile(filepath.Join(p.Root, "adir", "other.txt"), genContent(rr, &pool), 0o644))
+		}
+		victimData := append([]byte("upstream payload "), rr.bytes(20+rr.intn(60))...)
+		must(os.WriteFile(filepath.Join(p.Root, upFile), victimData, 0o644))
+		must(os.WriteFile(filepath.Join(p.Root, "b.bin"), append([]byte("downstream "), rr.bytes(10)...), 0o644))
+		p.writeStage("a.yaml", &StageRec{Out: []Art{{Path: upOut, IsDir: nested}}})
+		p.writeStage("b.yaml", &StageRec{Cmd: "true", In: []Art{{Path: upFile}}, Out: []Art{{Path: "b.bin"}}})
+		if res := p.dud("", "stage", "add", "a.yaml", "b.yaml"); res.Exit != 0 {
+			must(fmt.Errorf("corrupt pipeline setup: %s", res.Stderr))
+		}
+		cpc := rr.chance(1, 2)
+		args := []string{"commit"}
+		if cpc {
+			args = append(args, "--copy")
+		}
+		if res := p.dud("", args...); res.Exit != 0 {
+			must(fmt.Errorf("corrupt pipeline commit: %s", res.Stderr))
+		}
+		w := p.observe()
+		for _, ob := range w.Cache {
+			if string(ob.Data) == string(victimData) {
+				op := cachePathOf(p.CacheDir, ob.Digest)
+				must(os.Chmod(op, 0o644))
+				bad := append([]byte{}, victimData...)
+				bad[len(bad)/2] ^= 0x20
+				must(os.WriteFile(op, bad, 0o644))
+				must(os.Chmod(op, 0o444))
+			}
+		}
+		if cpc || rr.chance(1, 2) {
+			rmrf(filepath.Join(p.Root, upOut))
+			rmrf(filepath.Join(p.Root, "b.bin"))
+		}
+		t, _ := p.do(Cmd{Kind: "checkout", Copy: true, Targets: []string{"b.yaml"}}, nil, want(5, 8, 13), nil, nil)
+		t.Info["step"] = "checkout --copy of the downstream stage with a corrupted upstream object"
+		t.Info["nested"] = nested
+		tag([]*Transition{t}, "corrupt", 1000+i, map[string]interface{}{"kind": "pipeline"})
+		all = append(all, t)
+		distinct[fmt.Sprintf("pipe%d", i)] = true
+		s.count("pipeline")
+		rmrf(base)
+	}
 	s.Cases = len(all)
 	s.Nontrivial = len(distinct)
-	s.Rule = "committed artifact x one reachable file object damaged (flip first/middle/last byte, truncate by 1 / to 0, append 1) then `dud checkout --copy` (twice) of the removed artifact or over the links the commit left; every case is non-trivial; distinct by (object, damage)"
+	s.Rule = "two-stage pipelines with the corrupted object upstream and only the downstream stage named; committed artifact x one reachable file object damaged (flip first/middle/last byte, truncate by 1 / to 0, append 1) then `dud checkout --copy` (twice) of the removed artifact or over the links the commit left; every case is non-trivial; distinct by (object, damage)"
 	if len(all) > 0 {
 		s.Samples = append(s.Samples, all[0].Info)
 	}
